@@ -91,7 +91,7 @@ def _init_worker(check_id):
 
 def judge_one(check, case):
     """run one case under the watchdog; never raises"""
-    signal.setitimer(signal.ITIMER_REAL, WATCHDOG_S)
+    signal.setitimer(signal.ITIMER_REAL, WATCHDOG_S, 0.5)   # re-fires: a bare "except:" in the code under test may swallow one
     try:
         v = check.judge(case)
     except Hang:
@@ -110,8 +110,15 @@ def _work(args):
     res = {'idx': idx, 'n': 0, 'nt': [], 'outs': set(), 'viol': [], 'tr': 0,
            'cnt': {}, 'sets': {}, 'harness': [], 'samples': [],
            'out_list': [] if want_outs else None}
+    hangs = 0
     for case in chunk:
+        if hangs >= 3:
+            # a violation is established; do not spend 10 s per further state of this chunk
+            res['cnt']['not_run_after_3_watchdog_expiries_in_chunk'] = res['cnt'].get('not_run_after_3_watchdog_expiries_in_chunk', 0) + 1
+            continue
         v = judge_one(_check, case)
+        if v.get('hang'):
+            hangs += 1
         res['n'] += 1
         res['tr'] += v.get('tr', 1)
         oh = h64(v.get('out'))
@@ -183,6 +190,7 @@ def _run_check(check, tier, seed, out, t0):
              'sets': {}, 'samples': [], 'viol': [], 'harness': [],
              'viol_count': 0}
     caps = []
+    stats_caps = caps
     budget = getattr(check, 'budget_s', {}).get(tier)
     det_first = None
 
@@ -222,6 +230,9 @@ def _run_check(check, tier, seed, out, t0):
             absorb(ra)
             idx = 1
         while True:
+            if not exhausted and stats['viol_count'] >= 2000:
+                caps.append('enumeration stopped after 2000 violations')
+                exhausted = True
             while not exhausted and len(pending) < 4 * NPROC:
                 if budget and time.time() - t0 > budget:
                     caps.append('time budget %ds hit after %d chunks' % (budget, idx))
@@ -294,6 +305,8 @@ def _run_check(check, tier, seed, out, t0):
         for path in replay_paths:
             out.write('VIOLATION property=%s replay=%s\n' % (check.id, path))
 
+    if stats['cnt'].get('not_run_after_3_watchdog_expiries_in_chunk'):
+        caps.append('%d states not run after repeated watchdog expiries' % stats['cnt']['not_run_after_3_watchdog_expiries_in_chunk'])
     wall = time.time() - t0
     coverage = {
         'states': stats['states'],
